@@ -6,7 +6,8 @@ namespace Holpy.C17
 
 /-- The state after the proof-forest, `rep` and `class_list` updates of a union. -/
 def moveClass (s : State) (a b ra rb : Cst) (lab : Label) : State :=
-  { s with forest := addEdge s.forest a b lab,
+  { s with stuck := s.stuck || !pathComplete s.forest s.forest.length a,
+           forest := addEdge s.forest a b lab,
            rep := (clsOf s ra).foldl (fun rep c => aset rep c rb) s.rep,
            cls := adel (aset s.cls rb (clsOf s rb ++ clsOf s ra)) ra }
 
